@@ -5,6 +5,7 @@ delimiter) on which every bounds list of the pool resolves.  Compared with the m
 (tie) and with the statement's `conflict` table evaluated in Python (direct oracle)."""
 import itertools
 
+from cases import cli_roundtrip
 from common import build_tuc, run_cli, run_model, case_line
 
 LEVEL = "proof"
@@ -160,6 +161,9 @@ def run(chk):
             agrees = dont_care or st1 == "0"
         if not agrees:
             chk.report_tie("K-cli: the binary's decision differs from the model's `decision`", dict(replay, component="K-cli"))
+    # the wiring parse_args does for accepted sets (default delimiter / bounds, implied join, -c / --json replacement,
+    # line-mode delimiter, --fallback-oob forms): binary stdout + status vs the model
+    cli_roundtrip(chk, tuc, 3000 if chk.tier == "quick" else 40000, want=lambda a: len(a) >= 1)
     # order independence
     perm_cases, base = [], []
     pick = [F for F in sets if 2 <= len(groups(F)) <= 5]
